@@ -321,6 +321,32 @@ fn ob_c10_natural_union(k: u8, a: usize, b: usize, other_is_range: bool, k2: u8,
     assert!(mem_vr(&u, x as u128) == (x >= lo && hi.map_or(true, |h| x <= h)), "C10/C09 a union is exactly the convex hull of its operands");
 }
 
+//@ob C10.natural.invariant-bounds
+//@ props: C10 C09 C05
+//@ kind: complete
+//@ fns: src/token/variance/natural.rs::Depth::bound src/token/variance/natural.rs::Depth::into_lower_bound src/token/variance/natural.rs::Size::bound src/token/variance/natural.rs::Size::into_lower_bound src/token/variance/natural.rs::BoundedVariantRange::conjunction<Depth> src/token/variance/natural.rs::BoundedVariantRange::try_from_lower_and_upper
+//@ pre: two distinct invariants p != q (all of usize), any natural x; a bounded range r and an invariant n whose translated bounds are representable
+//@ post: bound(p, q) denotes exactly [min(p,q), max(p,q)] (two alternatives of different invariant depth); into_lower_bound(n) denotes exactly [n, inf) (an invariant part next to an unbounded part); r conjoined with the invariant n denotes gamma(r) shifted by n
+fn ob_c10_natural_invariant_bounds(p: usize, q: usize, x: usize, k: u8, a: usize, b: usize, n: usize) {
+    vassume!(p != q);
+    let (lo, hi) = (core::cmp::min(p, q), core::cmp::max(p, q));
+    vcover!(p > q && q == 0);
+    let bd = <Depth as InvariantTrait>::bound(Depth::new(p), Depth::new(q));
+    let bs = <Size as InvariantTrait>::bound(Size::new(p), Size::new(q));
+    assert!(mem_vr(&bd, x as u128) == (lo <= x && x <= hi), "C10 bound(p, q) is the hull of the two invariants");
+    assert!(mem_vr(&bs, x as u128) == (lo <= x && x <= hi), "C10 bound(p, q) is the hull of the two invariants (Size)");
+    let lower = Depth::new(p).into_lower_bound();
+    assert!(mem_vr(&lower, x as u128) == (x >= p), "C10 into_lower_bound(n) is [n, inf)");
+    assert!(mem_vr(&Size::new(p).into_lower_bound(), x as u128) == (x >= p));
+    // bounded range + invariant
+    vassume!(k <= 2 && valid_bvr(k, a, b));
+    vassume!((if k == 2 { a as u128 + b as u128 } else { a as u128 }) + n as u128 <= usize::MAX as u128);
+    let r = mk_bvr(k, a, b);
+    let shifted = ops::conjunction(r, Depth::new(n));
+    assert!(x < n || mem_bvr(&shifted, x as u128) == mem_bvr(&r, (x - n) as u128), "C10 a range plus an invariant is the range shifted by it");
+    assert!(x >= n || !mem_bvr(&shifted, x as u128) || matches!(r, BoundedVariantRange::Upper(_)), "C10 only an upper-bounded range keeps depths below the invariant");
+}
+
 //@ob C10.natural.from_closed_and_open
 //@ props: C10 C19 C05
 //@ kind: complete
